@@ -107,7 +107,11 @@ extern "C" int harness_main() {
   BuildConfig config; config.verbosity = BuildConfig::QUIET;
   StatusPrinter sp(config);
   verif_expect_fatal(1);          // an unknown placeholder is reported with Fatal(): an error, not a crash
-  std::string s = sp.FormatProgressStatus(fmt.c_str(), 1000);
+  // (the format lives in a buffer of exactly its size, as the environment string does: stepping over the terminating NUL is an out-of-bounds read, not a
+  // read of the unused part of a std::string's inline buffer)
+  char* exact = (char*)malloc(fmt.size() + 1); memcpy(exact, fmt.c_str(), fmt.size() + 1);
+  std::string s = sp.FormatProgressStatus(exact, 1000);
+  free(exact);
   verif_expect_fatal(0);
   verif_obs((long)s.size());
   verif_reach("formatted");
